@@ -97,6 +97,10 @@ def netClash (ids : List NetId) : Bool :=
 def leafClash (nodes : List FNode) : Bool :=
   !(decide (nodes.map leafName).Nodup)
 
+/-- a leaf that would be named like a net of the flat module (`module.add` would put the instance in the net's place) -/
+def crossClash (ids : List NetId) (nodes : List FNode) : Bool :=
+  nodes.any fun n => ids.any fun id => leafName n == netName id
+
 structure FlatInst where
   name : Name
   kind : String
@@ -122,7 +126,7 @@ def flatten (mods : Nat → Option FMod) (fuel : Nat) (top : FMod) : Except Err 
   match walk mods fuel top [] (top.signals.map (fun s => (s, ([], s))) ++ top.ports.map (fun s => (s, ([], s)))) with
   | none => .error .walkFailed
   | some nodes =>
-    if netClash (usedIds top.ports nodes) || leafClash nodes then .error .collision
+    if netClash (usedIds top.ports nodes) || leafClash nodes || crossClash (usedIds top.ports nodes) nodes then .error .collision
     else .ok {
       name := top.name ++ "_flat".toList
       ports := top.ports
